@@ -2,6 +2,7 @@ package props
 
 import (
 	"fmt"
+	"net"
 	"time"
 
 	"github.com/named-data/ndnd/fw/defn"
@@ -226,6 +227,7 @@ func init() {
 		Run: func(c *h.Ctx) {
 			if c.Batch < 2 {
 				c09Transports(c)
+				c09ConnectedTCP(c)
 			}
 			fwRunner("C09", 200, 1200)(c)
 		},
@@ -348,6 +350,114 @@ func c09Transports(c *h.Ctx) {
 		if scope != want {
 			c.Violation(fmt.Sprintf("C09:transport-scope-wrong:%s:peer-loopback=%v", t.kind, t.local), id, fmt.Sprintf("a %s face towards %s is classified as scope %d (local=1, non-local=0): /localhost traffic would be accepted from / sent to it", t.kind, t.host, scope),
 				map[string]any{"kind": t.kind, "peer": t.host})
+		}
+	}
+}
+
+// c09ConnectedTCP: TCP faces whose connection is really established (dialled through the
+// transport's own receive loop, and accepted) towards this host's non-loopback address and
+// towards loopback: the scope the forwarder consults must stay right after the connection is up.
+func c09ConnectedTCP(c *h.Ctx) {
+	fwenvLoadDefault()
+	hosts := []string{"127.0.0.1"}
+	if as, err := net.InterfaceAddrs(); err == nil {
+		for _, a := range as {
+			if ipn, ok := a.(*net.IPNet); ok && ipn.IP.To4() != nil && !ipn.IP.IsLoopback() {
+				hosts = append(hosts, ipn.IP.String())
+				break
+			}
+		}
+	}
+	if len(hosts) == 1 {
+		c.Note("connected_tcp_nonloopback", "this host has no non-loopback IPv4 address: only the loopback case ran")
+	}
+	for i, host := range hosts {
+		id := fmt.Sprintf("tcpconn%d", i)
+		if !c.Case(id) {
+			continue
+		}
+		c.Eval(1)
+		loop := net.ParseIP(host).IsLoopback()
+		want := defn.NonLocal
+		if loop {
+			want = defn.Local
+		}
+		ln, err := net.Listen("tcp4", net.JoinHostPort(host, "0"))
+		if err != nil {
+			c.Note("connected_tcp_listen_error", err.Error())
+			continue
+		}
+		port := uint16(ln.Addr().(*net.TCPAddr).Port)
+		accepted := make(chan net.Conn, 1)
+		go func() {
+			conn, err := ln.Accept()
+			if err != nil {
+				accepted <- nil
+				return
+			}
+			accepted <- conn
+		}()
+		var dialScope, acceptScope defn.Scope = defn.Unknown, defn.Unknown
+		dialed, acceptedOK := false, false
+		pi := h.Guard(func() {
+			tr, err := face.MakeUnicastTCPTransport(defn.MakeTCPFaceURI(4, host, port), nil, face.PersistencyPersistent)
+			if err != nil || tr == nil {
+				return
+			}
+			ls := face.MakeNDNLPLinkService(tr, face.MakeNDNLPLinkServiceOptions())
+			ls.Run(nil)
+			var conn net.Conn
+			select {
+			case conn = <-accepted:
+			case <-time.After(5 * time.Second):
+			}
+			if conn == nil {
+				tr.Close()
+				for k := 0; k < 300 && face.FaceTable.Get(ls.FaceID()) != nil; k++ {
+					time.Sleep(10 * time.Millisecond)
+				}
+				return
+			}
+			// the transport marks itself running after the dial has succeeded
+			for k := 0; k < 300 && !tr.IsRunning(); k++ {
+				time.Sleep(10 * time.Millisecond)
+			}
+			if tr.IsRunning() {
+				dialed = true
+				dialScope = ls.Scope()
+			}
+			if at, err := face.AcceptUnicastTCPTransport(conn, nil, face.PersistencyPersistent); err == nil && at != nil {
+				acceptedOK = true
+				acceptScope = at.Scope()
+			}
+			tr.Close()
+			conn.Close()
+			// the link service leaves the face table asynchronously: wait, so that its id cannot
+			// be unregistered underneath a later simulated face with the same id
+			for k := 0; k < 300 && face.FaceTable.Get(ls.FaceID()) != nil; k++ {
+				time.Sleep(10 * time.Millisecond)
+			}
+		})
+		ln.Close()
+		if pi != nil {
+			c.Note("connected_tcp_panic", pi.Value)
+			continue
+		}
+		for _, x := range []struct {
+			side  string
+			ok    bool
+			scope defn.Scope
+		}{{"dialled", dialed, dialScope}, {"accepted", acceptedOK, acceptScope}} {
+			if !x.ok {
+				c.Count("connected_tcp_not_established", 1)
+				continue
+			}
+			c.Count("connected_tcp_classified", 1)
+			c.Distinct(fmt.Sprintf("transport|tcp-connected|%s|loopback=%v", x.side, loop))
+			if x.scope != want {
+				c.Violation(fmt.Sprintf("C09:transport-scope-wrong:tcp-connected:%s:peer-loopback=%v", x.side, loop), id,
+					fmt.Sprintf("a %s TCP face with an established connection to %s is classified as scope %d (local=1, non-local=0)", x.side, host, x.scope), map[string]any{"peer": host, "side": x.side})
+			}
 		}
 	}
 }
